@@ -176,3 +176,172 @@ class MainTrackingFile(Contract):
     @property
     def loops(self):
         return {'while#0': LoopSpec(inv=self._inv)}
+
+
+class MainStartDistribution(Contract):
+    """main(): from the declaration of grid_t1 to the scan for the highest cell (C17, C09): whichever way the start
+    distribution is obtained — built-in Gaussian, HDF5 results file, text particle list — the grid that the rest of main
+    works with has exactly GridSize x GridSize cells per bunch (every later size in main: padding, maps, output extents, is
+    derived from GridSize), the PhaseSpace constructor gets one share per bunch, and the scan stays inside the grid."""
+    name = 'main'
+    tu = 'src/main.cpp'
+    tu_filter = 'main'
+    aux_tus = [('src/main.cpp', 'vfps::'), ('src/PS/PhaseSpace.cpp', 'vfps::')]
+    params = ['argc', 'argv']
+    tags = {'C17', 'C09'}
+    ghosts = {'k': 'int', 'n': 'int', 'x': 'int'}
+    slice_from = 'grid_t1'
+    slice_count = 7
+
+    def slice_setup(self, ex, st):
+        from .common import PS_NX, PS_NY, PS_NB, PS_NXY, PS_NXYB
+        # facts of the statements before the slice (each checked on the AST): nbunches = bunches.size(); ps_bins = opts.getGridSize()
+        fn = ex.fn
+        from vf.unit import _walk
+        facts = {'nbunches': 'size', 'ps_bins': 'getGridSize'}
+        for vn, callee in facts.items():
+            ok = False
+            for d in _walk(fn):
+                if d.get('kind') == 'VarDecl' and d.get('name') == vn:
+                    ok = any(x.get('kind') == 'MemberExpr' and x.get('name') == callee for x in _walk(d))
+            if not ok:
+                raise ExtractionError(f'main: {vn} is no longer initialised from {callee}()')
+        a = ex.args0
+        for need in ('ps_bins', 'nbunches', 'bunches'):
+            if need not in a:
+                raise ExtractionError(f'main: variable {need} not found before the start distribution is built')
+        st.assume(And(a['nbunches'].t == st.len_of(a['bunches'].name), a['nbunches'].t >= 1, a['ps_bins'].t >= 2, a['ps_bins'].t <= 65535,
+                      a['ps_bins'].t * a['ps_bins'].t * a['nbunches'].t < 2 ** 32))
+        # PhaseSpace::setSize has not been called yet (one-time setter; the globals are still zero)
+        U32 = parse_type_str('unsigned int')
+        for path in (PS_NX, PS_NY, PS_NB, PS_NXY, PS_NXYB):
+            st.scal[path] = IntV(I(0), U32)
+        st.scal['ghost.size_set'] = IntV(I(0), parse_type_str('int'))
+        if 'qmax' in a and 'qmin' in a:
+            st.assume(And(a['qmax'].t > a['qmin'].t, a['pmax'].t > a['pmin'].t))
+
+    def assigns(self, cx):
+        return [('s', 'ghost.*'), ('s', 'vfps::PhaseSpace::*'), ('s', 'arg:*'), ('r', 'heap:*'), ('len', 'heap:*'), ('s', 'heap:*')]
+
+    @property
+    def calls(self):
+        from .common import PS_NX, PS_NY, PS_NB, PS_NXY, PS_NXYB, declare_ps, ps_globals
+        from .ps import PhaseSpaceCtor12Use, PhaseSpaceCopyCtor, UpdateXProjection, Normalize
+        from .sm import Ruler_valid
+        U32 = parse_type_str('unsigned int')
+        noop = lambda ex, n, st, objn, argn, this_override=None: VoidV()
+        strv = lambda ex, n, st, objn, argn, this_override=None: Opaque('string')
+        fresh_bool = lambda ex, n, st, objn, argn, this_override=None: BoolV(z3.Bool(f'cond!{ex.curline}!{id(n) % 99991}'))
+        INST = lambda cx: [{'k': cx.ghost_of('k'), 'n': cx.ghost_of('n'), 'x': cx.ghost_of('x')}]
+
+        def set_sizes(ex, st, x, b):
+            """PhaseSpace::setSize(x, b): takes effect on the first call only"""
+            first = st.scal['ghost.size_set'].t == 0
+            xs, bs = ex.wrap(x, U32), ex.wrap(b, U32)
+            for path, val in ((PS_NX, xs), (PS_NY, xs), (PS_NB, bs), (PS_NXY, ex.wrap(xs * xs, U32)), (PS_NXYB, ex.wrap(xs * xs * bs, U32))):
+                st.scal[path] = IntV(If(first, val, st.scal[path].t), U32)
+                ex.logw(('s', path))
+            st.scal['ghost.size_set'] = IntV(I(1), parse_type_str('int'))
+            ex.logw(('s', 'ghost.size_set'))
+
+        def set_size(ex, n, st, objn, argn, this_override=None):
+            x, b = ex.ev(argn[0], st), ex.ev(argn[1], st)
+            set_sizes(ex, st, x.t, b.t)
+            return VoidV()
+
+        def loaded(ex, st, name, may_fail):
+            """a phase space produced by one of the file loaders: class invariant for the sizes the loader set"""
+            cx = Ctx(ex, st, st, ex.args0)
+            nx, ny, nb = ps_globals(cx)
+            st.assume(And(declare_ps(cx, name), Ruler_valid(cx, name + '._axis[0]', nx), Ruler_valid(cx, name + '._axis[1]', ny)))
+            return ObjRef(name, 'std::unique_ptr<vfps::PhaseSpace>', null=z3.Bool(f'{name}==null') if may_fail else z3.BoolVal(False))
+
+        def from_hdf5(ex, n, st, objn, argn, this_override=None):
+            # contract of HDF5File::readPhaseSpace (specs/io.py ReadPhaseSpace) as seen through makePSFromHDF5: either nothing
+            # (a message was printed), or a single-bunch phase space whose grid size is the one stored in the file
+            for a_ in argn:
+                try:
+                    ex.ev(a_, st)
+                except ExtractionError:
+                    pass
+            from vf.state import State
+            nfile = State.fresh('h5.grid_size', z3.IntSort())
+            st.assume(And(nfile >= 2, nfile <= 65535))
+            set_sizes(ex, st, nfile, I(1))
+            return loaded(ex, st, 'heap:PhaseSpace1', True)
+
+        def from_txt(ex, n, st, objn, argn, this_override=None):
+            # makePSFromTXT(fname, ps_size, ...): PhaseSpace::setSize(ps_size, 1) and a phase space of that size
+            ps_size = ex.ev(argn[1], st)
+            for a_ in argn[2:]:
+                try:
+                    ex.ev(a_, st)
+                except ExtractionError:
+                    pass
+            set_sizes(ex, st, ps_size.t, I(1))
+            return loaded(ex, st, 'heap:PhaseSpace1', False)
+
+        def reset(ex, n, st, objn, argn, this_override=None):
+            from vf.vcg import LVar
+            v = ex.ev(argn[0], st) if argn else None
+            d = objn
+            while d.get('kind') in ('ImplicitCastExpr', 'ParenExpr'):
+                d = d['inner'][0]
+            vid = (d.get('referencedDecl') or {}).get('id')
+            if vid is None or not isinstance(v, ObjRef):
+                raise ExtractionError('main: grid_t1.reset(...) with something that is not a new PhaseSpace')
+            st.env[vid] = ObjRef(v.name, 'std::shared_ptr<vfps::PhaseSpace>', null=z3.BoolVal(False))
+            ex.logw(('v', vid))
+            return VoidV()
+
+        def assign_ptr(ex, n, st, objn, argn, this_override=None):
+            # grid_t1 = <unique_ptr returned by a loader>
+            v = ex.ev(argn[0], st) if parse_type(argn[0]['type']).kind != 'class' else ex.ev_obj(argn[0], st)
+            d = objn
+            while d.get('kind') in ('ImplicitCastExpr', 'ParenExpr'):
+                d = d['inner'][0]
+            vid = (d.get('referencedDecl') or {}).get('id')
+            if isinstance(v, ObjRef) and vid is not None:
+                st.env[vid] = ObjRef(v.name, 'std::shared_ptr<vfps::PhaseSpace>', null=v.null)
+                ex.logw(('v', vid))
+                return VoidV()
+            raise ExtractionError(f'main: assignment to a grid pointer from {v}')
+
+        class MakeSharedCopy(Use):
+            def __init__(self):
+                Use.__init__(self, PhaseSpaceCopyCtor(), inst=INST)
+                self.n = 0
+
+            def __call__(self, ex, n, st, objn, argn, this_override=None):
+                self.n += 1
+                nm = f'heap:copy{self.n}'
+                Use.__call__(self, ex, n, st, None, argn, this_override=nm)
+                return ObjRef(nm, 'std::shared_ptr<vfps::PhaseSpace>', null=z3.BoolVal(False))
+        return {'setSize': set_size, 'makePSFromHDF5': from_hdf5, 'makePSFromTXT': from_txt, 'reset': reset, 'operator=': assign_ptr,
+                'ctor:vfps::PhaseSpace': Use(PhaseSpaceCtor12Use(), inst=INST), 'make_shared': MakeSharedCopy(),
+                'isOfFileType': fresh_bool, 'empty': fresh_bool, 'printText': noop, 'operator+': strv, 'operator<<': strv, 'str': strv,
+                'getStartDistStep': lambda ex, n, st, objn, argn, this_override=None: IntV(z3.Int('opt:StartDistStep'), parse_type_str('long')),
+                'getGridSize': lambda ex, n, st, objn, argn, this_override=None: ex.args0['ps_bins'],
+                'updateXProjection': Use(UpdateXProjection(), inst=lambda cx: [{'n': cx.ghost_of('n'), 'x': cx.ghost_of('x'), 'k': cx.ghost_of('k')}]),
+                'normalize': Use(Normalize(), inst=lambda cx: [{'n': cx.ghost_of('n'), 'x': cx.ghost_of('x'), 'y': cx.ghost_of('k')}]),
+                'min': lambda ex, n, st, objn, argn, this_override=None: RealV(z3.Real('float_min'), parse_type_str('float'))}
+
+    def ensures(self, cx):
+        from .common import ps_globals
+        nx, ny, nb = ps_globals(cx)
+        r = cx.ret
+        if isinstance(r, IntV):
+            return []           # early exit with a message (start file refused): nothing further runs
+        return [('grid_has_GridSize_cells', {'C17', 'C09'}, And(nx == cx.a('ps_bins'), ny == cx.a('ps_bins')))]
+
+    def _inv(self, var):
+        def inv(cx):
+            from .common import ps_globals
+            nx, ny, nb = ps_globals(cx)
+            out = [('sizes', And(nx == cx.a('ps_bins'), ny == cx.a('ps_bins'), nb >= 1))]
+            return out
+        return inv
+
+    @property
+    def loops(self):
+        return {'x#0': LoopSpec(inv=self._inv('x')), 'y#0': LoopSpec(inv=self._inv('y'))}
